@@ -51,3 +51,81 @@ Qed.
 Theorem notify_all_each objs n_added removed k o : nth_error objs k = Some o ->
   nth_error (notify_all objs n_added removed) k = Some (on_atoms_changed (fst o) (snd o) n_added removed, snd o).
 Proof. intro H. unfold notify_all. rewrite nth_error_map, H. reflexivity. Qed.
+
+(* ---- the labels of a move against the TRUE particles, through any history of accepted insertions and deletions.
+   An atom is (label, true particle id).  Atoms with a negative label are outside the bookkeeping. *)
+Definition tracked := list (Z * nat).
+Definition Part (lp : tracked) : Prop :=
+  forall a b, In a lp -> In b lp -> 0 <= fst a -> 0 <= fst b -> (fst a = fst b <-> snd a = snd b).
+
+Inductive ev := Ins (k q : nat) | Del (J : list nat).
+(* what really happens to the atoms: one particle q of k atoms appended / the rows I removed *)
+Definition truth_step (lp : tracked) (e : ev) : tracked :=
+  match e with
+  | Ins k q => lp ++ repeat (new_label (map fst lp) None, q) k
+  | Del J => delete lp J
+  end.
+(* what the move does to its labels on the notification *)
+Definition label_step (labels : list Z) (e : ev) : list Z :=
+  match e with Ins k _ => on_atoms_changed labels None k [] | Del J => on_atoms_changed labels None 0 J end.
+Fixpoint ev_ok (lp : tracked) (es : list ev) : Prop :=
+  match es with
+  | [] => True
+  | e :: es' => match e with Ins k q => ~ In q (map snd lp) | Del _ => True end /\ ev_ok (truth_step lp e) es'
+  end.
+
+Lemma in_delete_from {A} (x : A) l I : forall k, In x (delete_from k l I) -> In x l.
+Proof. induction l as [|y t IH]; intros k H; simpl in *; [exact H|]. destruct (mem k I); [right; eapply IH; eauto|destruct H as [->|H]; [now left|right; eapply IH; eauto]]. Qed.
+Lemma delete_from_map_fst (l : tracked) I : forall k, map fst (delete_from k l I) = delete_from k (map fst l) I.
+Proof. induction l as [|x t IH]; intro k; simpl; [reflexivity|]. destruct (mem k I); simpl; now rewrite IH. Qed.
+
+(* the move's label array is exactly the first component of the truth, step by step *)
+Lemma label_step_tracks lp e : label_step (map fst lp) e = map fst (truth_step lp e).
+Proof.
+  destruct e as [k q|J]; cbn [label_step truth_step].
+  - unfold on_atoms_changed. destruct k; [cbn [repeat]; now rewrite app_nil_r|]. rewrite map_app. f_equal.
+    generalize (S k). intro n. induction n as [|n IHn]; cbn [repeat map fst]; [reflexivity|]. now rewrite <- IHn.
+  - rewrite on_changed_delete. unfold delete. symmetry. apply delete_from_map_fst.
+Qed.
+
+Lemma in_nonneg_filter x l : In x l -> 0 <= x -> In x (filter (fun y => 0 <=? y) l).
+Proof. intros H Hx. apply filter_In. split; [exact H|]. now apply Z.leb_le. Qed.
+
+Lemma part_step lp e : Part lp -> match e with Ins k q => ~ In q (map snd lp) | Del _ => True end -> Part (truth_step lp e).
+Proof.
+  intros HP Hok. destruct e as [k q|J]; cbn [truth_step].
+  - destruct (new_label_fresh (map fst lp)) as [Hnn Hfresh]. set (nl := new_label (map fst lp) None) in *.
+    intros a b Ha Hb Hna Hnb. apply in_app_or in Ha. apply in_app_or in Hb.
+    destruct Ha as [Ha|Ha], Hb as [Hb|Hb].
+    + now apply HP.
+    + apply repeat_spec in Hb. subst b. simpl in *. split; intro E.
+      * exfalso. apply Hfresh. rewrite <- E. apply in_nonneg_filter; [apply in_map; exact Ha|exact Hna].
+      * exfalso. apply Hok. rewrite <- E. apply in_map. exact Ha.
+    + apply repeat_spec in Ha. subst a. simpl in *. split; intro E.
+      * exfalso. apply Hfresh. rewrite E. apply in_nonneg_filter; [apply in_map; exact Hb|exact Hnb].
+      * exfalso. apply Hok. rewrite E. apply in_map. exact Hb.
+    + apply repeat_spec in Ha. apply repeat_spec in Hb. subst a b. simpl. tauto.
+  - intros a b Ha Hb. apply HP; eapply in_delete_from; eauto.
+Qed.
+
+(* every history of accepted insertions (any particle size) and deletions (any index sets): at every point two tracked atoms carry the
+   same label exactly when they belong to the same particle, and the label array the move holds is the one the truth carries *)
+Theorem labels_track_particles es : forall lp, Part lp -> ev_ok lp es ->
+  Part (fold_left truth_step es lp) /\ fold_left label_step es (map fst lp) = map fst (fold_left truth_step es lp).
+Proof.
+  induction es as [|e es IH]; intros lp HP Hok; simpl; [split; [exact HP|reflexivity]|].
+  destruct Hok as [H1 H2]. rewrite label_step_tracks. apply IH; [now apply part_step|exact H2].
+Qed.
+(* inserted atoms are tracked (non-negative label) when no default is configured *)
+Lemma inserted_tracked (lp : tracked) k (q : nat) : Forall (fun a : Z * nat => 0 <= fst a) (repeat (new_label (map fst lp) None, q) k).
+Proof. destruct (new_label_fresh (map fst lp)) as [Hnn _]. induction k; simpl; constructor; [exact Hnn|exact IHk]. Qed.
+
+Example labels_track_nonvacuous :
+  let lp := [(0, 0%nat); (0, 0%nat); (-1, 7%nat); (3, 1%nat)] in
+  Part lp /\ ev_ok lp [Ins 2 2; Del [0%nat; 1%nat]; Ins 1 3] /\
+  map fst (fold_left truth_step [Ins 2 2; Del [0%nat; 1%nat]; Ins 1 3] lp) = [-1; 3; 4; 4; 5].
+Proof.
+  cbv zeta. split; [|split; [|reflexivity]].
+  - intros a b Ha Hb. simpl in Ha, Hb. intuition (subst; simpl in *; try lia; split; intro; try lia; try discriminate; try reflexivity).
+  - simpl. intuition discriminate.
+Qed.
